@@ -279,11 +279,15 @@ func (c *rawScn) step(st string) {
 		return ""
 	}
 	switch f[0] {
-	case "conn", "conngated":
+	case "conn", "conngated", "connlinger":
 		c.npipe++
 		p := s.Net.NewPipe(fmt.Sprintf("p%d", c.npipe))
-		if f[0] == "conngated" {
+		if f[0] != "conn" {
 			p.SetMode(vt.Gated)
+		}
+		if f[0] == "connlinger" {
+			// a transport send in flight when the connection goes away still succeeds once released ("releasel")
+			p.SetLinger(true)
 		}
 		c.pipes[p.Name] = p
 		s.Net.Listener("l1").Offer(p)
@@ -294,6 +298,10 @@ func (c *rawScn) step(st string) {
 		}
 	case "release":
 		if p := c.pipes[arg(1)]; p != nil && !p.IsClosed() && p.Blocked() {
+			p.Release()
+		}
+	case "releasel":
+		if p := c.pipes[arg(1)]; p != nil && p.Blocked() {
 			p.Release()
 		}
 	case "burst":
@@ -572,6 +580,13 @@ func rawScripted(p rawProto) []rawCfg {
 	if p.cooked {
 		// headers left on messages handed to a cooked socket (see mkSend)
 		out = append(out, rawCfg{P: p, TTL: 8, SQ: 4, RQ: 2, Steps: []string{"conn", "send fwd", "send fwdgone", "send badhdr", "send ok", "conn", "send fwd"}})
+	}
+	// a connection goes away while one of its transport sends is in flight, and that send still succeeds (the bytes
+	// had been taken): the departed connection is not used again - later messages go to the connections that are there
+	switch p.eng {
+	case "xpair", "xpair1", "xreq", "xpush", "xbus", "xstar", "xpub", "xsurveyor":
+		out = append(out, rawCfg{P: p, TTL: 8, SQ: 2, RQ: 2, Steps: []string{"connlinger", "send ok", "drop p1", "releasel p1", "conn", "send ok", "send ok", "conn", "send ok"}},
+			rawCfg{P: p, TTL: 8, SQ: 2, RQ: 2, Steps: []string{"conn", "connlinger", "send ok", "send ok", "send ok", "drop p2", "send ok", "releasel p2", "send ok", "send ok", "conn", "send ok"}})
 	}
 	out = append(out, rawCfg{P: p, TTL: 8, SQ: 2, RQ: 2, Steps: []string{"conn", "recv", "rq 5", "inj p1 ok", "recv", "rq 1", "inj p1 ok",
 		"recv", "rq 1", "inj p1 ok", "recv", "recv", "rq 3", "inj p1 ok", "inj p1 ok"}})
